@@ -51,8 +51,8 @@ def wf(o, pe):
             return 'central value is an array of shape %s' % (v.shape,)
         if np.iscomplexobj(v):
             return 'central value is a complex 0-d array'
-    elif not isinstance(v, (float, np.floating, int, np.integer)):
-        return 'central value has type %s' % type(v).__name__
+    elif not isinstance(v, (float, np.floating)):
+        return 'central value has type %s (the statement: a real floating-point central value)' % type(v).__name__
     names = list(o.names)
     for n in names:
         if not isinstance(n, str):
